@@ -187,6 +187,139 @@ def layer_correspondence(ctx, tmp):
     ctx.traces += len(model_in)
 
 
+
+# ---------------------------------------------------------------------------------------------
+# document layer: the whole save and the whole load, element by element, against Model/XmiDoc.lean
+
+def mutate_doc(rng, data, classes):
+    """one structural mutation of a saved document that keeps every attribute *value* as it was (value conversion is
+    C17's business): drop an attribute or a child, duplicate or swap children, break a reference token, add an unknown
+    attribute or child.  -> (kind, bytes) or None"""
+    from lxml import etree
+    root = etree.fromstring(data)
+    elems = [e for e in root.iter() if isinstance(e.tag, str) and not e.tag.startswith('{http://www.omg.org/XMI}')]
+    if not elems:
+        return None
+    feats = {}
+    for c in classes:
+        for f in c.eAllStructuralFeatures():
+            feats[f.name] = f
+    has_ids = any(k.endswith('}id') for e in elems for k in e.attrib) or any(getattr(f, 'iD', False) for f in feats.values() if f.is_attribute)
+    kind = rng.choice(['drop-attr', 'drop-child', 'dup-child', 'swap-children', 'bad-ref', 'unknown-attr', 'unknown-child', 'empty-ref'])
+    e = rng.choice(elems)
+    # (the document model decodes each slot on its own: the opposite handshake of load, which would re-create a dropped
+    #  end of a bidirectional reference from the other end, is the Store's business — bidirectional ends are left alone)
+    plain = [k for k in e.attrib if not k.startswith('{') and (k not in feats or feats[k].is_attribute or feats[k].eOpposite is None)]
+    kids = [c for c in e if isinstance(c.tag, str)]
+    if kind == 'drop-attr' and plain:
+        del e.attrib[rng.choice(plain)]
+    elif kind == 'drop-child' and kids:
+        e.remove(rng.choice(kids))
+    elif kind == 'dup-child' and kids and not has_ids:
+        import copy
+        k = rng.choice(kids)
+        if any(a in feats and not feats[a].is_attribute and feats[a].eOpposite is not None for x in k.iter() for a in x.attrib):
+            return None       # a copy with bidirectional references would re-point their partners (the Store's handshake)
+        e.insert(list(e).index(k) + 1, copy.deepcopy(k))
+    elif kind == 'swap-children' and len(kids) > 1:
+        i = rng.randrange(len(kids) - 1)
+        a, b = kids[i], kids[i + 1]
+        ia = list(e).index(a)
+        e.remove(b)
+        e.insert(ia, b)
+    elif kind in ('bad-ref', 'empty-ref'):
+        refs = [k for k in plain if k in feats and not feats[k].is_attribute]
+        if not refs:
+            return None
+        k = rng.choice(refs)
+        toks = e.attrib[k].split()
+        if kind == 'empty-ref':
+            e.attrib[k] = ''
+        else:
+            toks[rng.randrange(len(toks))] = rng.choice(['//@nope.0', '/99', '//@' + k + '.99', 'no-such-id'])
+            e.attrib[k] = ' '.join(toks)
+    elif kind == 'unknown-attr':
+        e.attrib['zzzUnknown'] = '1'
+    elif kind == 'unknown-child':
+        if e.tag in feats and feats[e.tag].is_attribute:
+            return None       # a child inside a text element is not looked at
+        etree.SubElement(e, 'zzzUnknown')
+    else:
+        return None
+    return kind, etree.tostring(root, xml_declaration=True, encoding='UTF-8')
+
+
+def doc_layer(ctx, tmp):
+    """every generated (metamodel, model, options): (1) the elements `save` wrote vs the model's `encodeDoc` of the same
+    object forest; (2) the model's `decodeDoc` of those elements vs the normal form of what `load` built; (3) the same for
+    structurally mutated documents, where load may raise (the model must then say `fail`)"""
+    from pyecore.resources import ResourceSet, URI
+    from pyecore.resources.xmi import XMIOptions
+    from . import xdoc
+    n = 150 if ctx.quick() else 3000
+    lines, wants = [], []
+    for h in range(n):
+        rng = common.sub_rng(ctx.seed, 'C08', 'doc', h)
+        sp = models.gen_mmspec(rng, h)
+        m = models.gen_model(rng, sp, nobj=rng.randint(2, 9))
+        classes = [m.classes[c['name']] for c in sp.classes]
+        use_uuid, sd = rng.random() < .35, rng.random() < .4
+        rep = {'case': h, 'layer': 'document', 'options': f'uuid={int(use_uuid)} defaults={int(sd)}'}
+        rset = ResourceSet()
+        path = os.path.join(tmp, 'doc.xmi')
+        res = rset.create_resource(URI(path))
+        res.use_uuid = use_uuid
+        for r in m.roots:
+            res.append(r)
+        try:
+            res.save(options={XMIOptions.SERIALIZE_DEFAULT_VALUES: sd})
+        except Exception as e:
+            ctx.violate({'clause': 'roundtrip-raised', 'error': type(e).__name__}, f'save raised {type(e).__name__}: {e}', rep)
+            continue
+        data = open(path, 'rb').read()
+        forest = '(' + ' '.join(xdoc.snode(r, classes, m.roots) for r in m.roots) + ')'
+        lines += xdoc.mm_lines(classes)
+        wants += [None] * (len(classes) + 1)
+        lines.append(f'enc {int(sd)} {int(use_uuid)} {forest}')
+        wants.append((rep, 'save', xdoc.doc_sexp(data)[1:-1].strip()))
+        variants = [('saved', data)]
+        for _ in range(2):
+            mu = mutate_doc(rng, data, classes)
+            if mu:
+                variants.append(mu)
+        for kind, bytes_ in variants:
+            with open(path, 'wb') as fh:
+                fh.write(bytes_)
+            rset2 = ResourceSet()
+            rset2.metamodel_registry[m.pk.nsURI] = m.pk
+            try:
+                res2 = rset2.get_resource(URI(path))
+                roots2 = list(res2.contents)
+                nf = ' '.join(xdoc.normal_form(r, classes, roots2, res2.use_uuid) for r in roots2)
+            except Exception:
+                nf = 'fail'
+            uu = int(b'{http://www.omg.org/XMI}id' in bytes_ or b'xmi:id' in bytes_) if kind != 'saved' else int(use_uuid)
+            lines.append(f'dec {int(sd)} {uu} {xdoc.doc_sexp(bytes_)}')
+            wants.append((dict(rep, document=kind), 'load', nf))
+            ctx.count('doc/' + kind + ('/raises' if nf == 'fail' else ''))
+        ctx.nontriv(('doc', h))
+    outs = common.run_driver('xdoc', lines)
+    nbad = 0
+    for l, w, o in zip(lines, wants, outs):
+        if w is None:
+            continue
+        ctx.evaluations += 1
+        rep, what, want = w
+        if o.strip() != want.strip():
+            nbad += 1
+            if nbad <= 20:
+                i = next((k for k in range(min(len(o), len(want))) if o[k] != want[k]), min(len(o), len(want)))
+                ctx.diverge(f'document layer, {what} ({rep.get("document", "saved")}): first difference at {i}: model `…{o[max(0, i - 80):i + 120]}` vs '
+                            f'implementation `…{want[max(0, i - 80):i + 120]}`', rep)
+    ctx.traces += len(lines)
+    ctx.extra['document_layer_records'] = len([w for w in wants if w])
+
+
 def run(ctx):
     common.use_repo()
     n = 300 if ctx.quick() else 6000
@@ -201,6 +334,7 @@ def run(ctx):
         for h in range(n):
             run_case(ctx, h, tmp, 10 if ctx.quick() else 25)
         layer_correspondence(ctx, tmp)
+        doc_layer(ctx, tmp)
     finally:
         shutil.rmtree(tmp, ignore_errors=True)
 
